@@ -34,7 +34,7 @@ func NewTarget(name, network, unixName string, tagged bool) (*Target, error) {
 		t.ln, err = net.Listen("unix", unixName)
 		t.Addr = unixName
 	} else {
-		t.ln, err = net.Listen("tcp", "127.0.0.1:0")
+		t.ln, err = ListenTCP0()
 		if err == nil {
 			t.Addr = t.ln.Addr().String()
 		}
